@@ -95,9 +95,10 @@ def desktop_env(work, variant, path):
 
 
 class Daemon:
-    def __init__(self, binary, work, config_text, tree_root, driver=None, timescale=20, gorace=None, args=None, name="daemon", desktop=None):
+    def __init__(self, binary, work, config_text, tree_root, driver=None, timescale=20, gorace=None, args=None, name="daemon", desktop=None, cfg_dir=None):
         self.work = work
-        self.cfg = os.path.join(work, name + ".yaml")
+        # (the configuration file may live in another directory than the one the daemon is started from)
+        self.cfg = os.path.join(cfg_dir or work, name + ".yaml")
         write(self.cfg, config_text)
         os.chmod(self.cfg, 0o644)
         self.out = os.path.join(work, name + ".out")
@@ -181,13 +182,21 @@ class Daemon:
         self.wait(30)
         dump = self.output()[before:]
         for blk in dump.split("\n\n"):
-            head = blk.split("\n", 1)[0]
+            lines = blk.split("\n")
+            head = lines[0]
             if " minutes]" not in head:
                 continue
-            if not ("sync.Mutex.Lock" in head or "sync.RWMutex" in head or "semacquire" in head):
-                continue
-            if "markusressel/fan2go/internal/" in blk.replace("/internal/verif/", "/VERIF/"):
-                return blk[:1800]
+            body = blk.replace("/internal/verif/", "/VERIF/")
+            if "sync.Mutex.Lock" in head or "sync.RWMutex" in head or "semacquire" in head:
+                if "markusressel/fan2go/internal/" in body:
+                    return blk[:1800]
+            elif ("chan receive" in head or "chan send" in head) and len(lines) > 1:
+                # a bare channel operation written in fan2go itself (the first frame; not a library's wait such as
+                # run.Group.Run, exec.Cmd.Wait or net/http) that has not completed for minutes - although the daemon was
+                # told to stop at least 90 s ago, which cancels every context fan2go waits on
+                first = lines[1].replace("/internal/verif/", "/VERIF/")
+                if first.startswith("github.com/markusressel/fan2go/internal/") or first.startswith("github.com/markusressel/fan2go/cmd/"):
+                    return blk[:1800]
         return ""
 
     def kill(self):
